@@ -24,12 +24,15 @@ let table_prims : prims = {
   aead_enc = (fun k n p -> let (c, t) = pair (look (Printf.sprintf "aead_enc/%s/%s/%s" (hb k) (hb n) (hb p))) in
                            (bytes_of_hex c, bytes_of_hex t));
   aead_dec = (fun k n c t -> opt_res (look (Printf.sprintf "aead_dec/%s/%s/%s/%s" (hb k) (hb n) (hb c) (hb t))));
-  b32_to_base32 = (fun b -> bytes_of_hex (look ("b32_to_base32/" ^ hb b)));
-  b32_from_base32 = (fun d -> opt_res (look ("b32_from_base32/" ^ hb d)));
-  b32_encode = (fun h d -> opt_res (look (Printf.sprintf "b32_encode/%s/%s" (hb h) (hb d))));
-  b32_decode = (fun s -> let r = look ("b32_decode/" ^ hb s) in
-                         if r = "~" then None else let (h, d) = pair r in Some (bytes_of_hex h, bytes_of_hex d));
+  (* bech32 is not tabulated: the executable model of the crate is used (with_bech32 below) *)
+  b32_to_base32 = (fun _ -> failwith "bech32 is modelled, not tabulated");
+  b32_from_base32 = (fun _ -> failwith "bech32 is modelled, not tabulated");
+  b32_encode = (fun _ _ -> failwith "bech32 is modelled, not tabulated");
+  b32_decode = (fun _ -> failwith "bech32 is modelled, not tabulated");
 }
+
+(* the cryptographic primitives from the tables, the bech32 codec from the Coq model of the crate *)
+let prims_used : prims = with_bech32 table_prims
 
 let parse_case (toks : string list) : case =
   let opt_b s = if s = "~" then None else Some (bytes_of_hex s) in
@@ -85,20 +88,20 @@ let () = run_driver (fun toks impl ->
   | "seq" :: _name :: rest ->
     (* a sequence of calls made one after the other in one process; steps and their observations are separated by `;` *)
     let steps = List.map (fun st -> parse_case (expand st)) (split_on ";" rest) in
-    let m = "seq " ^ String.concat " ; " (List.map show_obs (model_seq table_prims steps)) in
+    let m = "seq " ^ String.concat " ; " (List.map show_obs (model_seq prims_used steps)) in
     let v = match impl with
       | [] -> "na"
       | "seq" :: r -> (match (try Some (List.map parse_io (split_on ";" r)) with Failure _ -> None) with
-          | Some ios -> show_verdict (judge_seq table_prims steps ios)
+          | Some ios -> show_verdict (judge_seq prims_used steps ios)
           | None -> "fails:-")
       | _ -> "fails:-" in
     (m, v)
   | _ ->
   let c = parse_case args in
-  let m = show_obs (model_obs table_prims c) in
+  let m = show_obs (model_obs prims_used c) in
   let v = match impl with
     | [] -> "na"
     | _ -> (match (try Some (parse_io impl) with Failure _ -> None) with
-        | Some io -> show_verdict (judge table_prims c io)
+        | Some io -> show_verdict (judge prims_used c io)
         | None -> "fails:-") in
   (m, v))
